@@ -62,6 +62,15 @@ def _st(dem, rt):
     return {"dem": list(dem), "rt": rt}
 
 
+FRESH = {"s": 0, "done": 0, "on": 0}
+
+
+def _tk(strats, s=0, done=0, on=0):
+    """a strategy list plus the execution history of the task: started with strategy
+    `s` (0: never), executed for `done`, still RUNNING on pool `on` (0: RELEASED / PREEMPTED)"""
+    return {"strats": strats, "ran": {"s": s, "done": done, "on": on}}
+
+
 def _pool(av, cap=None):
     """single-worker pool"""
     return {"cap": [list(cap or [2] * len(av))], "av": [list(av)]}
@@ -91,11 +100,22 @@ def slices(size: str) -> dict:
     two = [[_st([1], 1)], [_st([2], 2)]]
     s["edf"] = dict(Kinds=["EDF"], Now=3, MaxTasks=n, KeyProfiles=_profiles(range(4), (0,), (0, 1)), StratLists=two, PoolSeqs=kpools)
     s["fifo"] = dict(Kinds=["FIFO"], Now=3, MaxTasks=n, KeyProfiles=_profiles((5,), range(4), (0, 1)), StratLists=two, PoolSeqs=kpools)
+    # slack = deadline - now - remaining time.  remaining = the slowest strategy (first /
+    # last / only) for a fresh task, the started strategy's runtime minus the executed time
+    # for a PREEMPTED one (started with the slow or with the fast strategy)
+    one2, two13, big2 = [_st([1], 2)], [_st([2], 1), _st([1], 3)], [_st([2], 2)]
     s["lsf"] = dict(
         Kinds=["LSF"], Now=2, MaxTasks=n, KeyProfiles=_profiles((5, 6, 7), (0,), (0,)),
-        # slack = deadline - now - slowest runtime: the slowest strategy is first / last / only
-        StratLists=[[_st([1], 1)], [_st([1], 2)], [_st([2], 2)], [_st([2], 1), _st([1], 3)], [_st([1], 3), _st([2], 1)]],
-        PoolSeqs=kpools,
+        StratLists=[_tk(one2), _tk(one2, 1, 1), _tk(two13), _tk(two13, 2, 2), _tk(two13, 1, 0), _tk(big2)],
+        PoolSeqs=kpools[:6],
+    )
+    # --- preemptive EDF / LSF: the virtual cluster is emptied (deepcopy) and the task that is
+    # RUNNING on pool 1 (at most one, offered last) competes with its live remaining time
+    run3 = [_st([1], 3)]
+    s["pre"] = dict(
+        Kinds=["EDF", "LSF"], Now=2, MaxTasks=3, Preemptive=True, KeyProfiles=_profiles((5, 6, 7), (0,), (0,)),
+        StratLists=[_tk([_st([1], 1)]), _tk(one2), _tk(big2), _tk(run3, 1, 1, 1), _tk(run3, 1, 2, 1)],
+        PoolSeqs=[[_pool([c], [c]) for c in caps] for caps in ((1,), (2,), (1, 1), (2, 1), (1, 2))],
     )
     # --- fit slice: two resource names, 1-2 strategies, 1-3 pools, all three policies; the
     # key profiles are ordered one way by deadline (and slack) and the other way by release
@@ -117,22 +137,47 @@ def slices(size: str) -> dict:
 
 
 def shapes_of(b):
-    return [
-        {"deadline": kp["deadline"], "release": kp["release"], "graph": kp["graph"], "strats": sl}
-        for kp in b["KeyProfiles"]
-        for sl in b["StratLists"]
-    ]
+    out = []
+    for kp in b["KeyProfiles"]:
+        for sl in b["StratLists"]:
+            tk = sl if isinstance(sl, dict) else _tk(sl)
+            out.append({"deadline": kp["deadline"], "release": kp["release"], "graph": kp["graph"], "strats": tk["strats"], "ran": dict(tk["ran"])})
+    return out
 
 
-def grouped(graphs) -> bool:
+def offer_ok(graphs, ons) -> bool:
+    """Greedy!OfferOK: graphs contiguous among the tasks that are not running, the running
+    ones last in pool order, at most one of them"""
     seen, last = set(), None
-    for g in graphs:
-        if g != last:
+    for g, on in zip(graphs, ons):
+        if on == 0 and g != last:
             if g in seen:
                 return False
             seen.add(g)
             last = g
-    return True
+    run = [i for i, on in enumerate(ons) if on > 0]
+    if len(run) > 1:
+        return False
+    return all(ons[j] >= ons[i] for i in run for j in range(i + 1, len(ons)))
+
+
+def pools_for(b, tasks, ps):
+    """Greedy!PoolsFor"""
+    if not b.get("Preemptive"):
+        return ps
+    out = []
+    for q, pool in enumerate(ps):
+        av = list(pool["cap"][0])
+        for t in tasks:
+            if t["ran"]["on"] == q + 1:
+                av = [a - d for a, d in zip(av, t["strats"][t["ran"]["s"] - 1]["dem"])]
+        out.append({"cap": pool["cap"], "av": [av]})
+    return out
+
+
+def _inst(b, ts, ps):
+    ts = list(ts)
+    return {"now": b["Now"], "preemptive": bool(b.get("Preemptive")), "tasks": ts, "pools": pools_for(b, ts, ps)}
 
 
 def enumerate_bound(b):
@@ -140,23 +185,23 @@ def enumerate_bound(b):
     sh = shapes_of(b)
     for n in range(1, b["MaxTasks"] + 1):
         for ts in itertools.product(sh, repeat=n):
-            if not grouped([t["graph"] for t in ts]):
+            if not offer_ok([t["graph"] for t in ts], [t["ran"]["on"] for t in ts]):
                 continue
             for ps in b["PoolSeqs"]:
-                yield {"now": b["Now"], "tasks": list(ts), "pools": ps}
+                yield _inst(b, ts, ps)
 
 
 def count_bound(b) -> int:
-    graphs = [kp["graph"] for kp in b["KeyProfiles"]]
-    per_graph = {g: graphs.count(g) * len(b["StratLists"]) for g in set(graphs)}
+    cls = [(x["graph"], x["ran"]["on"]) for x in shapes_of(b)]
+    size = {c: cls.count(c) for c in set(cls)}
     total = 0
     for n in range(1, b["MaxTasks"] + 1):
-        for gs in itertools.product(sorted(per_graph), repeat=n):
-            if grouped(gs):
-                c = 1
-                for g in gs:
-                    c *= per_graph[g]
-                total += c
+        for cs in itertools.product(sorted(size), repeat=n):
+            if offer_ok([c[0] for c in cs], [c[1] for c in cs]):
+                k = 1
+                for c in cs:
+                    k *= size[c]
+                total += k
     return total * len(b["PoolSeqs"])
 
 
@@ -167,9 +212,9 @@ def sample_bound(b, k, r):
     while len(out) < k:
         n = r.choices(range(1, b["MaxTasks"] + 1), weights)[0]
         ts = [r.choice(sh) for _ in range(n)]
-        if not grouped([t["graph"] for t in ts]):
+        if not offer_ok([t["graph"] for t in ts], [t["ran"]["on"] for t in ts]):
             continue
-        out.append({"now": b["Now"], "tasks": ts, "pools": r.choice(b["PoolSeqs"])})
+        out.append(_inst(b, ts, r.choice(b["PoolSeqs"])))
     return out
 
 
@@ -196,11 +241,13 @@ def constants(b, first=None, records=None, nrecords=0):
         "Kinds": _set(b["Kinds"]),
         "Now": b["Now"],
         "MaxTasks": b["MaxTasks"],
+        "Preemptive": bool(b.get("Preemptive")),
         "Shapes": sh,
         "PoolSeqs": pools,
         "NShapes": len(sh),
         "NPools": len(pools),
         "GraphOf": [x["graph"] for x in sh],
+        "OnOf": [x["ran"]["on"] for x in sh],
         "FirstIx": _set(list(range(1, len(sh) + 1)) if first is None else list(first)),
         "Records": Raw(records) if records else [],
         "NRecords": nrecords,
@@ -209,7 +256,7 @@ def constants(b, first=None, records=None, nrecords=0):
 
 def instance_of(b, sel, pix):
     sh = shapes_of(b)
-    return {"now": b["Now"], "tasks": [sh[i - 1] for i in sel], "pools": b["PoolSeqs"][pix - 1]}
+    return _inst(b, [sh[i - 1] for i in sel], b["PoolSeqs"][pix - 1])
 
 
 @contextlib.contextmanager
@@ -332,19 +379,20 @@ def absorb_enum(res, outs):
 _SCHED = {}
 
 
-def scheduler(kind):
-    if kind not in _SCHED:
+def scheduler(kind, preemptive=False):
+    key = (kind, bool(preemptive))
+    if key not in _SCHED:
         N = ns()
         import schedulers
 
         zero = N.EventTime.zero()
         if kind == "EDF":
-            _SCHED[kind] = schedulers.EDFScheduler(preemptive=False, runtime=zero, enforce_deadlines=False)
+            _SCHED[key] = schedulers.EDFScheduler(preemptive=key[1], runtime=zero, enforce_deadlines=False)
         elif kind == "FIFO":
-            _SCHED[kind] = schedulers.FIFOScheduler(preemptive=False, runtime=zero, enforce_deadlines=False)
+            _SCHED[key] = schedulers.FIFOScheduler(preemptive=key[1], runtime=zero, enforce_deadlines=False)
         else:
-            _SCHED[kind] = schedulers.LSFScheduler(preemptive=False, runtime=zero)
-    return _SCHED[kind]
+            _SCHED[key] = schedulers.LSFScheduler(preemptive=key[1], runtime=zero)
+    return _SCHED[key]
 
 
 def _request(dem):
@@ -365,7 +413,9 @@ def build_pools(inst):
         pool = N.WorkerPool(name=f"pool{pi}", workers=workers)
         for wi, (cap, av) in enumerate(zip(p["cap"], p["av"])):
             occ = [c - a for c, a in zip(cap, av)]
-            if any(occ):
+            # (a preemptive policy is offered everything that sits on the pools: there the
+            # occupants are the instance's own running tasks, placed by build_workload)
+            if any(occ) and not inst.get("preemptive"):
                 st = N.ExecutionStrategy(resources=_request(occ), batch_size=1, runtime=us(1000))
                 prof = N.WorkProfile(name=f"occ{pi}_{wi}", execution_strategies=N.ExecutionStrategies([st]))
                 dummy = N.Task(
@@ -384,9 +434,12 @@ def observe(pools, nres):
     return [[[w.resources.get_available_quantity(q) for q in probes] for w in pool.workers] for pool in pools]
 
 
-def build_workload(inst):
-    """Real RELEASED tasks, one TaskGraph per graph number (dict order = first
-    appearance).  Returns (workload, tasks in instance order)."""
+def build_workload(inst, pools):
+    """Real tasks, one TaskGraph per graph number (dict order = first appearance).
+    ran.s = 0: RELEASED.  Otherwise the task is scheduled with strategy ran.s, placed,
+    started at its release time and stepped for ran.done; then either PREEMPTED and taken
+    off its pool (ran.on = 0) or left RUNNING on the instance's pool ran.on.
+    Returns (workload, tasks in instance order)."""
     N = ns()
     tasks = []
     for ti, t in enumerate(inst["tasks"]):
@@ -397,6 +450,26 @@ def build_workload(inst):
             deadline=us(t["deadline"]), timestamp=0, release_time=us(t["release"]),
         )
         task.release()
+        ran = t.get("ran", FRESH)
+        if ran["s"]:
+            st = strategies[ran["s"] - 1]
+            if ran["on"]:
+                pool = pools[ran["on"] - 1]
+            else:  # it ran somewhere else before it was preempted
+                worker = N.Worker(name=f"elsewhere{ti}", resources=N.Resources(resource_vector={N.Resource(name=RES_NAMES[k]): q for k, q in enumerate(t["strats"][ran["s"] - 1]["dem"]) if q > 0}))
+                pool = N.WorkerPool(name=f"elsewhere{ti}", workers=[worker])
+            t0 = us(t["release"])
+            task.schedule(t0, N.Placement.create_task_placement(task=task, placement_time=t0, worker_pool_id=pool.id, execution_strategy=st))
+            if not pool.place_task(task, execution_strategy=st):
+                raise tlc.TLCMachineryError(f"could not place the running task {ti} of {inst}")
+            task.start(t0)
+            if ran["done"]:  # (Worker.step would also step the other tasks of the pool)
+                if task.step(t0, us(ran["done"])):
+                    raise tlc.TLCMachineryError(f"task {ti} finished while it was being prepared: {inst}")
+            if not ran["on"]:
+                end = us(t["release"] + ran["done"])
+                task.preempt(end)
+                pool.remove_task(end, task)
         tasks.append(task)
     graphs = {}
     for task in tasks:
@@ -408,32 +481,34 @@ def build_workload(inst):
 
 def realize(kind, inst):
     """Run the real scheduler on the instance.  Returns (inst as offered, ans, before,
-    after, info)."""
+    after, remaining times read from the real tasks, info)."""
     N = ns()
     nres = len(inst["pools"][0]["av"][0])
     info = {}
     pools = build_pools(inst)
-    workload, tasks = build_workload(inst)
+    workload, tasks = build_workload(inst, pools)
     now = us(inst["now"])
-    offered = workload.get_schedulable_tasks(time=now)
+    pre = bool(inst.get("preemptive"))
+    wps = N.WorkerPools(pools)
+    offered = workload.get_schedulable_tasks(time=now, preemption=pre, worker_pools=wps)
     idx = {id(t): i for i, t in enumerate(tasks)}
     perm = [idx[id(t)] for t in offered if id(t) in idx]
     if perm != list(range(len(tasks))):
         if sorted(perm) != list(range(len(tasks))) or len(offered) != len(tasks):
             info["not_offered"] = [len(tasks), perm]
-            return None, None, None, None, info
+            return None, None, None, None, None, info
         # describe the instance in the order the code offers it
         info["offer_reordered"] = perm
         inst = dict(inst, tasks=[inst["tasks"][i] for i in perm])
         tasks = [tasks[i] for i in perm]
         idx = {id(t): i for i, t in enumerate(tasks)}
-    wps = N.WorkerPools(pools)
     pool_ix = {p.id: i + 1 for i, p in enumerate(pools)}
     before = observe(pools, nres)
+    remaining = [t.remaining_time.to(N.EventTime.Unit.US).time for t in tasks]
     order, place = [], [{"placed": False, "pool": 0, "strat": 0} for _ in tasks]
     seen = set()
     try:
-        placements = scheduler(kind).schedule(now, workload, wps)
+        placements = scheduler(kind, pre).schedule(now, workload, wps)
         for pl in placements:
             ptype = pl.placement_type
             if ptype not in (N.Placement.PlacementType.PLACE_TASK, N.Placement.PlacementType.CANCEL_TASK):
@@ -458,27 +533,36 @@ def realize(kind, inst):
                 if place[ti]["pool"] == 0 or si == 0:
                     # a pool / strategy that is not part of the instance: nothing C13 can judge (C10)
                     info["not_offered"] = ["unknown pool or strategy in placement", ti + 1, str(pl)]
-                    return None, None, None, None, info
+                    return None, None, None, None, None, info
                 if pl.worker_id is not None:
                     info["worker_id_reported"] = True
     except Exception as ex:  # the call has no answer: nothing is placed (TLC judges that)
         info["raised"] = f"{type(ex).__name__}: {ex}"[:300]
         order, place = [], [{"placed": False, "pool": 0, "strat": 0} for _ in tasks]
     after = observe(pools, nres)
-    return inst, {"order": order, "place": place}, before, after, info
+    return inst, {"order": order, "place": place}, before, after, remaining, info
+
+
+def normalize(inst):
+    """fill in the fields a hand-written / older instance may lack"""
+    out = dict(inst)
+    out.setdefault("preemptive", False)
+    out["tasks"] = [dict(t, ran=dict(t.get("ran", FRESH))) for t in inst["tasks"]]
+    return out
 
 
 def make_records(items, id0=0):
     """items: [(kind, inst, bound?)] -> records, skipped infos"""
     recs, infos = [], []
     for k, (kind, inst, bound) in enumerate(items):
-        inst2, ans, before, after, info = realize(kind, inst)
+        inst = normalize(inst)
+        inst2, ans, before, after, remaining, info = realize(kind, inst)
         if inst2 is None:
             infos.append({"kind": kind, "inst": inst, **info})
             continue
         rec = {
             "id": id0 + k, "kind": kind, "inst": inst2, "ans": ans,
-            "bound": bool(bound) and "offer_reordered" not in info, "before": before, "after": after,
+            "bound": bool(bound) and "offer_reordered" not in info, "before": before, "after": after, "remaining": remaining,
         }
         if info:
             rec["_info"] = info
@@ -679,16 +763,20 @@ def _dispatch(name, args):
 # T: larger random instances
 
 
-def random_instance(r, max_tasks=8, workers=(1,), nres=None):
+def random_instance(r, max_tasks=8, workers=(1,), nres=None, kind="EDF", partial=True):
+    """<= max_tasks tasks, ties, several strategies, 1-4 pools.  With `partial`, a third of
+    the instances contain PREEMPTED tasks (remaining time below the slowest strategy's
+    runtime) and a quarter of the EDF / LSF ones are preemptive with RUNNING tasks."""
     nres = nres or r.choice((1, 2, 2, 2))
     now = r.randint(2, 5)
+    pre = partial and kind != "FIFO" and workers == (1,) and r.random() < 0.25
     pools = []
     for _ in range(r.randint(1, 4)):
         cap, av = [], []
         for _w in range(r.choice(workers)):
             c = [r.randint(0, 3) for _ in range(nres)]
             cap.append(c)
-            av.append([r.randint(0, x) for x in c])
+            av.append(list(c) if pre else [r.randint(0, x) for x in c])
         pools.append({"cap": cap, "av": av})
     n = r.randint(2, max_tasks)
     graphs, g_used = [], []
@@ -697,6 +785,10 @@ def random_instance(r, max_tasks=8, workers=(1,), nres=None):
         g_used.append(g)
         graphs += [g] * r.randint(1, 3)
     graphs = graphs[:n]
+    if pre:
+        # Workload.get_schedulable_tasks(preemption=True) appends the placed tasks once per
+        # task graph: with one graph the running tasks are offered exactly once
+        graphs = [graphs[0]] * n
     dl = r.choice((2, 3, 5))
     tasks = []
     for g in graphs:
@@ -706,8 +798,25 @@ def random_instance(r, max_tasks=8, workers=(1,), nres=None):
             if not any(dem):
                 dem[r.randrange(nres)] = 1
             strats.append(_st(dem, r.randint(1, 4)))
-        tasks.append({"deadline": now + r.randint(0, dl), "release": r.randint(max(0, now - dl), now), "graph": g, "strats": strats})
-    return {"now": now, "tasks": tasks, "pools": pools}
+        tasks.append({"deadline": now + r.randint(0, dl), "release": r.randint(max(0, now - dl), now), "graph": g, "strats": strats, "ran": dict(FRESH)})
+    if partial and (pre or r.random() < 0.35):
+        running = []
+        for t in tasks:
+            if r.random() < 0.4:
+                s = r.randint(1, len(t["strats"]))
+                done = r.randint(0, min(t["strats"][s - 1]["rt"] - 1, now - t["release"]))
+                t["ran"] = {"s": s, "done": done, "on": 0}
+                if pre and r.random() < 0.6:  # leave it RUNNING on the first pool that still has room
+                    dem = t["strats"][s - 1]["dem"]
+                    for pi, p in enumerate(pools):
+                        if all(a >= d for a, d in zip(p["av"][0], dem)):
+                            p["av"][0] = [a - d for a, d in zip(p["av"][0], dem)]
+                            t["ran"]["on"] = pi + 1
+                            running.append(t)
+                            break
+        # the running tasks are offered last, pool by pool
+        tasks = [t for t in tasks if not t["ran"]["on"]] + sorted(running, key=lambda t: t["ran"]["on"])
+    return {"now": now, "preemptive": pre, "tasks": tasks, "pools": pools}
 
 
 # ---------------------------------------------------------------------------
@@ -733,7 +842,7 @@ def explore_jobs(tier):
     b = explore_bound()
     jobs = [(3000, _enum_job, (f"x/{inv}/0", b, None, [inv])) for inv in ("CodedIsPlan", "CodedNoInversion", "CodedFeasible")]
     r = rng("c13-explore")
-    items = [(KINDS[i % 3], random_instance(r, 5, workers=(1, 2, 2)), False) for i in range(3000)]
+    items = [(KINDS[i % 3], random_instance(r, 5, workers=(1, 2, 2), partial=False), False) for i in range(3000)]
     return jobs, record_jobs("X-multi-worker", [("random", NO_BOUND, items, False)], 1500)
 
 
@@ -780,7 +889,7 @@ def absorb_explore(res, enum_outs, rec_outs):
 def run(tier: str) -> CheckResult:
     res = CheckResult("C13", tier)
     q = tier == "quick"
-    procs = 14 if q else 16
+    procs = 18 if q else 16
     res.assumptions = [
         "gating instances have single-worker pools whose worker owns one resource instance per name; demands use the "
         "wildcard id ('any'); Greedy!VectorModelOK ties this vector model to LedgerOps (FitsEach = CanAllocMulti = pointwise >=)",
@@ -800,7 +909,7 @@ def run(tier: str) -> CheckResult:
     phases = os.environ.get("VERIF_C13_PHASES", "MRTX").upper()
     t0 = time.time()
     # ---- M
-    m_jobs = enum_jobs(small, lambda tag, b: 3 if tag == "fit" else 2, inv, "small")
+    m_jobs = enum_jobs(small, lambda tag, b: {"fit": 3, "lsf": 3, "pre": 1}.get(tag, 2), inv, "small")
     m_jobs += enum_jobs(large, lambda tag, b: 16, inv, "large")
     if "M" not in phases:
         m_jobs = []
@@ -808,7 +917,7 @@ def run(tier: str) -> CheckResult:
     r_specs = []
     for tag, b in small.items():
         if q:
-            insts = sample_bound(b, 600 if tag == "fit" else 800, rng(f"c13-R-{tag}"))
+            insts = sample_bound(b, {"fit": 500, "pre": 300, "lsf": 800}.get(tag, 700), rng(f"c13-R-{tag}"))
         else:
             insts = list(enumerate_bound(b))
         r_specs.append((tag, b, [(kind, i, True) for i in insts for kind in b["Kinds"]], True))
@@ -819,7 +928,7 @@ def run(tier: str) -> CheckResult:
     res.extra["R_instances"] = sum(len(sp[2]) // len(sp[1]["Kinds"]) for sp in r_specs)
     # ---- T
     r = rng("c13-T")
-    items = [(KINDS[i % 3], random_instance(r), False) for i in range(1200 if q else int(40000 * scale))]
+    items = [(KINDS[i % 3], random_instance(r, kind=KINDS[i % 3]), False) for i in range(1200 if q else int(40000 * scale))]
     t_jobs = record_jobs("T", [("random", NO_BOUND, items, True)] if "T" in phases else [], 1200 if q else 4000)
     # ---- X
     xe_jobs, xr_jobs = ([], []) if q or "X" not in phases else explore_jobs(tier)
